@@ -11,7 +11,7 @@ Result: /verif/seeded/<name>/{patch.diff, demo.py, notes.md, meta.json}"""
 import sys, os, json, subprocess, tempfile, shutil, argparse, time
 ap = argparse.ArgumentParser()
 ap.add_argument('name'); ap.add_argument('src'); ap.add_argument('prop')
-ap.add_argument('--checks', default=None); ap.add_argument('--suite', action='store_true'); ap.add_argument('--tier', default='quick')
+ap.add_argument('--checks', default=None); ap.add_argument('--suite', action='store_true'); ap.add_argument('--tier', default='quick'); ap.add_argument('--no-checks', action='store_true')
 a = ap.parse_args()
 checks = (a.checks or a.prop).split(',')
 wt = tempfile.mkdtemp(prefix='seedwt.', dir='/tmp')
@@ -43,7 +43,7 @@ try:
         meta['suite'] = {'ok': c.returncode == 0, 'summary': c.stdout.strip().splitlines()[:6], 'wall_s': round(time.time() - t0)}
         print('suite:', c.stdout.strip().splitlines()[0])
     meta['checks'] = {}
-    for chk in checks:
+    for chk in ([] if a.no_checks else checks):
         e = dict(env, MYSTIC_VERIF_REPO=wt)
         t0 = time.time()
         r = sh('/verif/check %s --tier %s' % (chk, a.tier), env=e, timeout=7200)
